@@ -233,15 +233,26 @@ def run_case(case, ctx):
                 gen_ = rng.normal(size=(dim, dim)) + 1j * rng.normal(size=(dim, dim))
                 starts.append(("general complex operator", gen_ / numpy.linalg.norm(gen_)))
                 pairs = []
+                lab_pairs, labs_, flags_ = [], [], []
                 for nm_, x0 in starts:
                     ops_ = []
                     for R_, h_ in ((Ro, Bo["hamR"]), (Rt, ham)):
                         r_ = qr.ReducedDensityMatrix(dim=dim)
                         r_.data = x0.copy()
-                        ops_.append(numpy.array(qm.ReducedDensityMatrixPropagator(t, h_, R_).propagate(r_).data))
+                        ev_ = qm.ReducedDensityMatrixPropagator(t, h_, R_).propagate(r_)
+                        ops_.append(numpy.array(ev_.data))
+                        # the same dynamics as the laboratory frame sees it: the evolution says which frame it is in and converts itself
+                        flags_.append(bool(getattr(ev_, "is_in_rwa", False)))
+                        if h_.has_rwa:
+                            ev_.convert_from_RWA(h_)
+                        labs_.append(numpy.array(ev_.data))
                     pairs.append((nm_, ops_[0], ops_[1]))
+                    lab_pairs.append((nm_, labs_[-2], labs_[-1], flags_[-2], flags_[-1]))
         for nm_, a_, b_ in pairs:
             ctx.check("propagate:operators==tensor", float(numpy.max(numpy.abs(a_ - b_))), 1e-10, dict(det, what="TD tensor, operator form vs tensor form", initial=nm_))
+        for nm_, a_, b_, fa_, fb_ in lab_pairs:
+            ctx.require("propagate:operators==tensor", fa_ == fb_, dict(det, what="TD tensor: the two forms report different frames (is_in_rwa)", initial=nm_, operator_form=fa_, tensor_form=fb_))
+            ctx.check("propagate:operators==tensor", float(numpy.max(numpy.abs(a_ - b_))), 1e-10, dict(det, what="TD tensor, operator form vs tensor form, converted to the laboratory frame", initial=nm_))
         with ctx.lib("convert_2_tensor of the TD operator form, then other bases", mechanism=None):
             with contextlib.redirect_stdout(io.StringIO()):
                 hamo = Bo["hamR"]
